@@ -75,6 +75,8 @@ impl Recorder {
     pub fn set_fault(&self, k: usize, sticky: bool) { let mut st = self.st.lock().unwrap(); st.fail_at = Some(k); st.sticky = sticky; }
     pub fn flushes(&self) -> usize { self.st.lock().unwrap().flushes }
     pub fn calls(&self) -> usize { self.st.lock().unwrap().calls }
+    /// (row, col) of the emulated cursor; col == width means the pending-wrap column
+    pub fn cursor(&self) -> (u16, u16) { let st = self.st.lock().unwrap(); st.parser.as_ref().map_or((0, 0), |p| p.screen().cursor_position()) }
     pub fn rows(&self) -> Vec<String> { let st = self.st.lock().unwrap(); if st.parser.is_some() { snapshot(&st, self.w).0 } else { vec![] } }
 }
 
@@ -153,7 +155,6 @@ impl Out {
 pub fn fx(family: &str) -> String {
     if let Ok(v) = std::env::var("VERIF_FX") { return v; }
     match family {
-        "tpl" | "style" | "adapt" | "locks" | "limiter" => "current",
-        _ => "",
+        _ => "current",
     }.to_string()
 }
